@@ -848,6 +848,10 @@ fn main() {
         let v: serde_json::Value = serde_json::from_str(&txt).expect("replay json");
         let c = &v["case"];
         let line = c.as_str().map(|s| s.to_string()).or_else(|| c["case"].as_str().map(|s| s.to_string())).unwrap_or_default();
+        if line.split('|').count() < 2 {
+            println!("replay file holds no case text (correspondence-only finding): re-run ./check C20 with the recorded seed");
+            std::process::exit(1);
+        }
         let mut case = decode(&line);
         // replay files hold timestamps relative to the (hour-aligned) base
         for ch in case.chunks.iter_mut() {
